@@ -296,7 +296,8 @@ def config_validation(ctx):
                 v, m = smt.check(list(pc) + [n >= 1, n <= 32766], 10000, True)
                 what = "rejected only outside 1..32766"
             else:
-                raise HarnessError(f"check_mappings: {stt} {val!r}")
+                ctx.harness_gap(f"check_mappings: {stt} {val!r}")
+                continue
             ctx.stats[v] += 1
             ctx.sample({"obligation": f"size of {key} {what}", "verdict": v})
             if v == "sat":
@@ -334,7 +335,8 @@ def run(tier):
             if sig == "unknown":
                 ctx.note_inconclusive(what)
             elif sig.startswith("harness"):
-                raise HarnessError(f"{r['job'][1]!r}: {what}")
+                ctx.harness_gap(f"{r['job'][1]!r}: {what}")
+                continue
             elif sig.startswith("syntax:"):
                 ctx.stats["unloadable_outputs(C07)"] += 1
             else:
